@@ -137,6 +137,26 @@ CLAIMS["C10"] = (
     "specification's adjacency rule says; abbreviations parse to their expansions.",
     CLAIMS["C01"][2] + " The hook renders the parse tree read-only.", "DESIGN.md 4/C10")
 
+CLAIMS["C06"] = (
+    "TLA+ pushdown abstraction of the parser/builder recursion (XStack.tla) over the call graph extracted from the working "
+    "tree: TLC checks that every recursive cycle passes a depth guard and names unguarded cycles, which are pumped on the "
+    "real code in subprocesses at depths up to 10^6 (10^7 thorough); TLC enumerates every character-class string and "
+    "token string up to length 3-4 with the reference lexer/parser verdict (MC_Lexical.tla, XSyntax.tla); the harness "
+    "applies the totality oracle to each, plus seeded random token strings and byte mutations of valid expressions",
+    "Model checking of the recursion skeleton (structural argument for unbounded nesting) plus bounded-exhaustive and "
+    "seeded conformance for totality: no panic escapes, exactly one of (expression, error) from Compile and CompileWithNS "
+    "(bound and empty map), MustCompile non-nil, no hang.",
+    CLAIMS["C01"][2] + " The skeleton extraction (go/ast) recognises guards syntactically (x.d > N / x.parseDepth > N).",
+    "DESIGN.md 4/C06")
+CLAIMS["C17"] = (
+    "TLA+ reference lexer and parser (XSyntax.tla Lex/RefParse, function signature table) - MC_Damage.tla applies every "
+    "damage operator of the listed classes at every applicable position of a seed set of valid expressions (hand-written "
+    "and compositional: every function, axis, operator) and emits a damaged string only if the reference parser rejects "
+    "it; Compile must return an error for every whitespace placement",
+    "Exhaustive over (seed, damage operator, position); the specification, not a heuristic, decides which damaged strings "
+    "are ill-formed.",
+    CLAIMS["C01"][2], "DESIGN.md 4/C17")
+
 NOT_YET = "check not built yet in this round (see DESIGN.md section 9 for the construction order)"
 
 
